@@ -392,24 +392,23 @@ func (ei *resourceInformer) handleWatchEvent(object interface{}, eventType kemty
 		}
 
 		verifsched.Point("informer.watch.cached", ei.Monitor.Metadata.DebugName)
-		// fix race with enableKubeEventCb.
-		eventCbEnabled := false
+		// Read the flag and save the event under the same lock: otherwise enableKubeEventCb
+		// can flush the buffer in between and the event stays in the buffer forever.
 		ei.eventBufLock.Lock()
-		eventCbEnabled = ei.eventCbEnabled
-		ei.eventBufLock.Unlock()
+		eventCbEnabled := ei.eventCbEnabled
 		verifsched.Point("informer.watch.flagRead", ei.Monitor.Metadata.DebugName)
-
-		if eventCbEnabled {
-			// Pass event info to callback.
-			ei.putEvent(kubeEvent)
-		} else {
-			ei.eventBufLock.Lock()
+		if !eventCbEnabled {
 			// Save event in buffer until the callback is enabled.
 			if ei.eventBuf == nil {
 				ei.eventBuf = make([]kemtypes.KubeEvent, 0)
 			}
 			ei.eventBuf = append(ei.eventBuf, kubeEvent)
-			ei.eventBufLock.Unlock()
+		}
+		ei.eventBufLock.Unlock()
+
+		if eventCbEnabled {
+			// Pass event info to callback.
+			ei.putEvent(kubeEvent)
 		}
 	}
 }
